@@ -27,4 +27,34 @@ a, b = "<!-- AS-BUILT-TABLE-BEGIN -->", "<!-- AS-BUILT-TABLE-END -->"
 if a in s:
     s = s[:s.index(a) + len(a)] + "\n" + table + "\n" + s[s.index(b):]
     open(p, "w").write(s)
-print(table[:300])
+# seeded changes table
+rows = []
+for d in sorted(glob.glob(os.path.join(ROOT, "seeded", "*"))):
+    mf = os.path.join(d, "meta.json")
+    if not os.path.exists(mf):
+        continue
+    m = json.load(open(mf))
+    caught = []
+    for c, r in (m.get("checks") or {}).items():
+        for tier, v in r.items():
+            if v.get("exit") == 1:
+                fr = v.get("first_replay") or {}
+                how = fr.get("signature") or ("; ".join(fr.get("theorem_or_tie") or [])[:90] if fr.get("theorem_or_tie") else "")
+                nf = " (no-failing-input-found)" if any("no-failing-input-found" in x for x in v.get("violations", [])) else ""
+                caught.append("%s %s%s: %s" % (c, tier, nf, (how or "").replace("|", "/")[:110]))
+                break
+    rd = os.path.join(d, "README.md")
+    first = ""
+    if os.path.exists(os.path.join(d, "patch.diff")):
+        files = re.findall(r"^\+\+\+ b/(\S+)", open(os.path.join(d, "patch.diff")).read(), re.M)
+        first = ", ".join(sorted(set(files)))
+    rows.append("| %s | %s | %s | demo with patch %s / without %s | %s |" % (
+        os.path.basename(d), m.get("property"), first, m.get("demo_with_patch"), m.get("demo_without_patch"),
+        "<br>".join(caught) if caught else "**missed** by " + ", ".join((m.get("checks") or {}).keys())))
+t2 = "| seeded change | property | file(s) changed | confirmation | caught by |\n|---|---|---|---|---|\n" + "\n".join(rows)
+s = open(p).read()
+a, b = "<!-- SEEDED-TABLE-BEGIN -->", "<!-- SEEDED-TABLE-END -->"
+if a in s:
+    s = s[:s.index(a) + len(a)] + "\n" + t2 + "\n" + s[s.index(b):]
+    open(p, "w").write(s)
+print(len(rows), "seeded rows")
